@@ -286,6 +286,15 @@ def model_flops(e, cse_once, seen):
     return own + sum(model_flops(c, cse_once, seen) for c in children(e))
 
 
+class _Unwalkable(p.Expression):
+    """a node type no counter knows (and that names no handler an ancestor could take over)"""
+    init_arg_names = ()
+    mapper_method = "map_vf_unwalkable"
+
+    def __getinitargs__(self):
+        return ()
+
+
 @check("C09.counts")
 def c_counts(ctx, case):
     e = case
@@ -304,6 +313,16 @@ def c_counts(ctx, case):
         ctx.count("node_count_type_ambiguous")
         slack = sum(len(occurrences(k[1])) for k, v in amb.items() if len(v) > 1)
         lo, hi = lo - slack, hi + slack
+    # ... after a FAILED count that the caller caught (a tree with a leaf the counter cannot
+    # visit, met after some nodes were already counted): the next count starts from nothing
+    for bad in (p.Sum((p.Product((p.Variable("q1"), p.Variable("q2"))), p.Variable("q3"), "a string leaf")),
+                p.Product((p.Sum((p.Variable("q1"), 2)), _Unwalkable()))):
+        try:
+            get_num_nodes(bad)
+        except RecursionError:
+            raise
+        except Exception:  # noqa: BLE001
+            ctx.count("failed_counts_before_a_valid_one")
     for name, fn in (("get_num_nodes", lambda: get_num_nodes(e)),
                      ("NodeCountMapper", lambda: _ncm(e))):
         ctx.case(None)
@@ -465,6 +484,7 @@ def workload(ctx):
             ctx.count("handler:" + k, v)
     ctx.floor("wide_nodes", 150)
     ctx.floor("deep_towers", 100)
+    ctx.floor("failed_counts_before_a_valid_one", 1000)
     ctx.floor("big_expressions", 3)
     ctx.floor("dep_calls", 72 * 2 * 500)
     ctx.floor("history_calls", 3000)
